@@ -19,7 +19,7 @@ def tlc_cfg(name, text, module, wname, **kw):
 def run_c19(prop):
     quick = vlib.tier() != "thorough"
     v = Verdict(prop, "model_checking")
-    v.rule = ("case = (program class of 16: count / sliding / tumbling / session windows plain and partitioned, sequences with references, Kleene, negation, join, "
+    v.rule = ("case = (program class of 17: count / sliding / tumbling / session windows plain and partitioned, sequences with references, Kleene, negation, join, "
               "distinct+limit, watermark + tumbling with external watermark advances; parameters; stream of events/watermarks); EVERY cut position of every stream is run; "
               "non-trivial = the uninterrupted run emits something; distinct by hash")
     v.assumptions = ["oracle = the uninterrupted run of the real engine on the same stream (the property is an equivalence of two executions)",
